@@ -305,7 +305,12 @@ class StartupRun:
                         pass
                     self.log("tick", i)
                 elif k == "tick":
-                    if a["d"]:
+                    if a["d"] and a.get("giveup"):
+                        with anyio.move_on_after(a["d"] * TICK) as scope:
+                            v = await get_resource(TYPES[0], "never_published")
+                        if not scope.cancelled_caught:
+                            self.probe_failed(i, f"a lookup of a resource nobody publishes returned {val_str(v)}", "C06")
+                    elif a["d"]:
                         await anyio.sleep(a["d"] * TICK)
                     else:
                         await anyio.lowlevel.checkpoint()
@@ -342,7 +347,17 @@ class StartupRun:
                 elif k == "fail":
                     self.log("failed", i, a["e"])
                     exc: BaseException = EXN[a["e"]]()
-                    if (i + a["e"]) % 3 == 0:
+                    if a.get("conflict"):
+                        from asphalt.core import ResourceConflict
+
+                        cty, cname, ctd = a["conflict"]
+                        try:
+                            add_resource(TYPES[cty](0), cname, types=[TYPES[cty]],
+                                         teardown_callback=lambda id_=ctd: self.log("tdRun", id_))
+                            self.probe_failed(i, f"a second add_resource() under ({cty}, {cname!r}) was accepted", "C03")
+                        except ResourceConflict as e:
+                            exc = e
+                    elif (i + a["e"]) % 3 == 0:
                         # what the component fails with is itself a group of one (its own task group's, say)
                         exc = ExceptionGroup("jobs of the component failed", [exc])
                     self.raised_exc[i] = (exc, a["e"])
